@@ -326,7 +326,7 @@ class Checked:
             self.check_emissions(self.app.sent[sent0:], ctx)
 
     # -- publish
-    async def publish(self, times):
+    async def publish(self, times, then_hear=None):
         inst = self.inst
         sent0 = len(self.app.sent)
         for _ in range(times):
@@ -342,6 +342,13 @@ class Checked:
                 self.viol('C18:publish-increments-by-one', f'publish: sequence number went {old} -> {inst.self_seq}, returned {ret}')
             if nz(inst.local_sv) != nz(self.m_local):
                 self.viol('C18:publish-updates-own-entry', f'publish: local is {_show(inst.local_sv)}, expected {_show(self.m_local)}')
+        if then_hear is not None:
+            # a sync Interest is handled in the very loop turn of the publication, before the timer task has run
+            self.recv(then_hear)
+            if inst.state != SvsState.SyncSteady:
+                # the vector showed the sender to be behind: the announcement waits for the suppression period (checked there)
+                await self.settle()
+                return
         t0 = self.loop.time()
         await self.settle()
         new = self.app.sent[sent0:]
@@ -424,6 +431,8 @@ def run_case(case):
                 await c.publish(1)
             elif ev == 'pub2':
                 await c.publish(2)
+            elif ev.startswith('pub+'):
+                await c.publish(1, then_hear=ev[4:])
             else:
                 c.recv(ev)
                 await c.settle()
@@ -454,6 +463,12 @@ def cases(tier, rng):
     for op in openers:
         for mid in itertools.product(VECTORS + ('pub',), repeat=2):
             yield {'start': 'populated', 'events': [op, mid[0], 'tick-short', mid[1], 'tick-sup']}
+    # a publication and a received vector in the same loop turn (the announcement is owed promptly all the same)
+    for start in ('fresh', 'populated'):
+        for v in VECTORS:
+            yield {'start': start, 'events': ['pub+' + v]}
+            yield {'start': start, 'events': ['tick-short', 'pub+' + v, 'tick-short']}
+            yield {'start': start, 'events': ['older-a', 'pub+' + v, 'tick-sup']}
     n_random = 6000 if tier == 'quick' else 120000
     max_len = 5 if tier == 'quick' else 6
     for _ in range(n_random):
